@@ -99,12 +99,14 @@ Definition common_okb (n : nat) (mt : option nat) (o : obs) : bool :=
   && (o_raised o || forallb negb (o_live o))                            (* returns only after all have finished *)
   && Bool.eqb (o_raised o)                                              (* the exception propagates, and only then *)
        (mt_raises n mt || has_intr (o_trace o) || status_raised (o_trace o))
-  && (if o_raised o
-      then let m := match main_stops (o_trace o) with
-                    | [] => length unreaped              (* stream: flags set without a shared operation *)
-                    | fl => if existsb (fun b => b) fl then upto_first_true fl else length unreaped
-                    end in
-           list_eqb Nat.eqb (o_stops o) (firstn m unreaped)             (* every started, unreaped worker told to stop *)
+  && (if o_raised o                                                     (* aborted: *)
+      then forallb (fun w => w <? k) (o_stops o)                        (* only started workers are told to stop, *)
+           && (existsb (fun b => b) (main_stops (o_trace o))            (* and - unless a stop() of the caller's result itself
+                                                                           raised inside the abort handler: then nothing more
+                                                                           is demanded than that the exception propagates - *)
+               || forallb (fun w => memb w (o_stops o)) unreaped)       (* every started worker not yet joined is among them;
+                                                                           in which order, and whether joined ones are told
+                                                                           too, is left open *)
       else match o_stops o with [] => true | _ => false end).
 
 (* ---------- stream: delivery ---------- *)
@@ -198,8 +200,8 @@ Definition spec_okb (i : input) (o : obs) : bool :=
   end.
 
 (* ---------- the readable statement ---------- *)
-(* how many process results the except clause reaches: all of the unreaped ones, unless a stop() of the
-   caller's result itself raised - then those up to and including that one *)
+(* (used by the model-level theorem C13_abort only) how many process results the CURRENT except clause reaches:
+   all of the unreaped ones, unless a stop() of the caller's result itself raised - then those up to that one *)
 Definition stops_expected (fl : list bool) (len : nat) : nat :=
   match fl with
   | [] => len
@@ -217,8 +219,13 @@ Definition Common (n : nat) (mt : option nat) (o : obs) : Prop :=
   /\ (o_raised o = true <->                                                (* the exception propagates, and only then *)
       (mt_raises n mt = true \/ has_intr (o_trace o) = true \/ status_raised (o_trace o) = true))
   /\ (o_raised o = false -> o_stops o = [])
-  /\ (o_raised o = true ->                                                 (* every started, unreaped worker is told to stop *)
-      o_stops o = firstn (stops_expected (main_stops (o_trace o)) (length unreaped)) unreaped).
+  /\ (o_raised o = true ->                                                 (* aborted: only started workers are told to stop *)
+      forall w, In w (o_stops o) -> w < k)
+  /\ (o_raised o = true ->                                                 (* ... and every started worker not yet joined is -
+                                                                              in any order, joined ones possibly too - unless a
+                                                                              stop() of the caller's result itself raised *)
+      (forall b, In b (main_stops (o_trace o)) -> b = false) ->
+      forall w, In w unreaped -> In w (o_stops o)).
 
 (* stream: what main passed on from worker w (w = the w-th sub-suite's StreamToQueue; several sub-suites
    may have been given the SAME route code, so a route code does not identify a worker) is, event for
